@@ -53,6 +53,10 @@ def run(ctx: Ctx):
 
     # the total a share is taken over is the total of the BASE values: never a reduction of an assembled (display) vector
     c05.display_reductions(ctx, only=lambda where: "share" in where.lower())
+    # a helper of the public share accessors that blanks or copies by row / column positions addresses the right axis
+    from .common import axis_role_lint
+
+    axis_role_lint(ctx, "axis-roles", entries=("row_share_sum", "column_share_sum", "total_share_sum"))
 
 
 def totals_last(ctx: Ctx):
